@@ -9,7 +9,9 @@ GEN_GROUPS = ["Todo"]
 CODE_TOKENS = ["x", "foo", "=", "1", "42", "+", "(", ")", "{", "}", ";", "a.b", "->", "::", "==", "/ 2", "* 3", "/= 4", "é", "if", "return", "@A", "%", "<<=", "0x1F", "1.5e3", "TODO", "todo"]
 STR_PIECES = ["abc", "// TODO not a comment", "/* TODO */", "# TODO", "TODO", "\\\"", "\\\\", "\\n", "é", " ", "'", "`", "*/", "\\u00e9", "\\7", "\\177"]
 TODO_TEXTS = ["TODO x", " TODO: fix this", "FIXME(bob): z", " todo(a.b@c-d_e+f)::: w", "todo", "FixMe", " TODO(ann lee) hello world", "TODO:", "TODO()", " TODO (x) y",
-              "TODOS plural", "fixmeNOW", " TODO é unicode", "TODO(bob)", "  \tTODO\ttabbed", "TODO: a * b */ c", "Todo(a):b", "TODO: see http://x/y"]
+              "TODOS plural", "fixmeNOW", " TODO é unicode", "TODO(bob)", "  \tTODO\ttabbed", "TODO: a * b */ c", "Todo(a):b", "TODO: see http://x/y",
+              # a colon between the word and the parenthesised name: the name is still the assignee
+              " TODO: (alice) tidy this up", "FIXME: (bob): second", "todo:(carol) third", "TODO :(dan) x"]
 PLAIN_TEXTS = ["", " ", "just a note", "x TODO later", "mention FIXME inside", "*", "/", "##", "(bob) TODO", "DOTO", " T ODO", "é", "!", "/ TODO"]
 
 
